@@ -65,8 +65,15 @@ func c19snap(root string) map[string]c19ent {
 // UTC date whatever the user's zone is.
 var c19TZ = ""
 
+// c19Trace, when set, names the file the next runGT writes an strace -f trace to.
+var c19Trace = ""
+
 func runGT(cfgHome string, args string) (string, string, error) {
 	cmd := exec.Command(os.Args[0], "-test.run=^TestVerifC19Child$")
+	if c19Trace != "" {
+		cmd = verifrt.StraceCommand(c19Trace, os.Args[0], "-test.run=^TestVerifC19Child$")
+		c19Trace = ""
+	}
 	env := []string{}
 	for _, e := range os.Environ() {
 		if strings.HasPrefix(e, "XDG_CONFIG_HOME=") || strings.HasPrefix(e, "HOME=") || strings.HasPrefix(e, "VERIF_GT_ARGS=") || strings.HasPrefix(e, "TZ=") {
@@ -98,7 +105,7 @@ func isUploadData(name string) bool { return strings.HasSuffix(name, ".json") }
 func TestVerifC19(t *testing.T) {
 	const check = "C19.cli"
 	res := verifrt.NewResult(check)
-	res.Rule = "generated telemetry directories (local/ and upload/ with counter files and reports by the exact patterns, near-misses (.bak, .v2.count, .jsonx, .json.lock, weekends, upload.token, dot files, upper case), sub-directories with plain and with data-like names (empty and non-empty), symlinks, foreign top-level files, missing local/upload, every mode-file state) x command sequences of length 1-6 over {on, local, off, clean, env} run as real subprocesses. Oracle by snapshot diff: after clean no regular file matching the data patterns remains in local/ and upload/ and every other path is byte-identical; on|local|off change at most the mode file, leave it byte- and mtime-identical when the mode already reads as requested, otherwise env and a library read report the requested mode with today's UTC date. distinct = (tree, command) pairs; non-trivial = tree has data files and near-misses"
+	res.Rule = "generated telemetry directories (local/ and upload/ with counter files and reports by the exact patterns, near-misses (.bak, .v2.count, .jsonx, .json.lock, weekends, upload.token, dot files, upper case), sub-directories with plain and with data-like names (empty and non-empty), symlinks, foreign top-level files, missing local/upload, every mode-file state) x command sequences of length 1-6 over {on, local, off, clean, env} run as real subprocesses. Oracle by snapshot diff: after clean no regular file matching the data patterns remains in local/ and upload/ and every other path is byte-identical; on|local|off change at most the mode file, leave it byte- and mtime-identical when the mode already reads as requested, otherwise env and a library read report the requested mode with today's UTC date. distinct = (tree, command) pairs; non-trivial = tree has data files and near-misses; every other invocation also runs under strace -f and its successful creating/removing/changing system calls on paths that existed beforehand must target only what the command may change (clean: counter files and reports; on/local/off: the mode file, and not at all when the mode is already set; env: nothing)"
 	base, _ := os.MkdirTemp(os.Getenv("VERIF_TMP"), "c19-")
 	defer os.RemoveAll(base)
 	n := verifrt.Scale(140, 5000)
@@ -184,6 +191,11 @@ func TestVerifC19(t *testing.T) {
 			before := c19snap(home)
 			modeBefore, _ := os.ReadFile(filepath.Join(tdir, "mode"))
 			t0 := time.Now().UTC()
+			trace := ""
+			if (i+k)%2 == 0 {
+				trace = filepath.Join(base, fmt.Sprintf("trace-%d-%d.txt", i, k))
+				c19Trace = trace
+			}
 			out, errOut, err := runGT(home, cmd)
 			t1 := time.Now().UTC()
 			after := c19snap(home)
@@ -204,6 +216,56 @@ func TestVerifC19(t *testing.T) {
 			}
 			sort.Strings(changed)
 			modeRel := filepath.Join("go", "telemetry", "mode")
+			if trace != "" {
+				// second witness: system calls of the command on paths that
+				// existed before it ran (what it may touch depends on the command)
+				evs, terr := verifrt.ParseStrace(trace)
+				os.Remove(trace)
+				if terr != nil || len(evs) == 0 {
+					res.Inconc(fmt.Sprintf("no strace witness for case %d step %d: %v", i, k, terr))
+				} else {
+					res.Hit("strace-witness")
+					wasMode, _ := parseModeC19(modeBefore)
+					if _, ok := before[modeRel]; !ok {
+						wasMode = "local"
+					}
+					for _, ev := range evs {
+						mut := ev.Mutation()
+						if mut == "" || mut == "open-create" {
+							continue // creating a new name is judged by the snapshots
+						}
+						for _, p := range ev.Paths {
+							rel, err := filepath.Rel(home, p)
+							if err != nil || strings.HasPrefix(rel, "..") {
+								continue
+							}
+							b, existed := before[rel]
+							if !existed {
+								continue
+							}
+							dir, name := filepath.Split(rel)
+							dir = filepath.Clean(dir)
+							isData := dir == filepath.Join("go", "telemetry", "local") && isLocalData(name) || dir == filepath.Join("go", "telemetry", "upload") && isUploadData(name)
+							allowed := false
+							switch cmd {
+							case "clean":
+								allowed = isData
+							case "env":
+							default:
+								allowed = rel == modeRel && wasMode != cmd
+							}
+							if b.Dir && (mut == "mkdir" || mut == "mkdirat") {
+								allowed = true
+							}
+							if !allowed {
+								res.Violate("touched-other:syscall:"+cmd, fmt.Sprintf("%s made the system call %s(%.300s) = %d on %s, which it has no business changing (mode before %q)", cmd, ev.Name, ev.Args, ev.Ret, rel, modeBefore), rp2(i, cmd, k))
+							} else {
+								res.Hit("syscall-on-permitted-target:" + cmd)
+							}
+						}
+					}
+				}
+			}
 			switch cmd {
 			case "clean":
 				for p, e := range after {
@@ -290,13 +352,17 @@ func TestVerifC19(t *testing.T) {
 		}
 		os.RemoveAll(home)
 	}
-	res.Require("clean-checked", "mode-already-set", "mode-changed", "mode-shrinks", "cmd:env")
+	res.Require("strace-witness", "syscall-on-permitted-target:clean", "syscall-on-permitted-target:on", "clean-checked", "mode-already-set", "mode-changed", "mode-shrinks", "cmd:env")
 	if _, err := os.Stat("/usr/share/zoneinfo/Pacific/Kiritimati"); err == nil {
 		res.Require("zone-with-other-date")
 	}
 	if err := res.Write(); err != nil {
 		t.Fatal(err)
 	}
+}
+
+func rp2(i int, cmd string, k int) map[string]any {
+	return verifrt.CaseReplay(i, map[string]any{"cmd": cmd, "step": k})
 }
 
 func firstLine(s string) string {
